@@ -112,15 +112,20 @@ Fixpoint dec_unprotected (fuel : nat) (u : wire) {struct fuel} : res (list gv) :
              | Rej _ =>
                  match skip_tags v with
                  | Some (WArr _ ((_ :: _) as l)) =>
-                     let* cs := (fix go (l : list wire) : res (list gv) :=
-                                   match l with
-                                   | [] => Acc []
-                                   | y :: r =>
-                                       let y := strip_sd y in
-                                       comb (if builtin_tag_ok y then dec_sig y else Rej EOther) (go r)
-                                            (fun c cs => Acc (c :: cs))
-                                   end) l in
-                     Acc (GCsigs cs)
+                     (* whatever fails inside, the caller sees one generic error *)
+                     match (fix go (l : list wire) : res (list gv) :=
+                              match l with
+                              | [] => Acc []
+                              | y :: r =>
+                                  let y := strip_sd y in
+                                  comb (if builtin_tag_ok y then dec_sig y else Rej EOther) (go r)
+                                       (fun c cs => Acc (c :: cs))
+                              end) l with
+                     | Acc cs => Acc (GCsigs cs)
+                     | Rej _ => Rej EOther
+                     | Panic => Panic
+                     | Unm => Unm
+                     end
                  | _ => Rej EOther
                  end
              end in
